@@ -69,6 +69,8 @@ def candidates(path, ops, lo, hi):
     for i, ln in code_lines(path, lo, hi):
         code = ln.split("//")[0]
         tail = ln[len(code):]
+        # text inside /* ... */ on the line is not code: blank it (same length, so that match positions stay valid)
+        code = re.sub(r"/\*.*?\*/", lambda m: " " * len(m.group(0)), code)
         tables = []
         if "rel" in ops:
             tables += [("rel", a, b) for a, b in REL]
